@@ -47,6 +47,15 @@ type backendDef struct {
 	Slices int
 	// LargeFile: the history of a composition contains a file big enough to be packed.
 	LargeFile bool
+	// MultiZip (blobpacked): the zip size limit is lowered (verif hook
+	// blobpacked.VerifSetMaxZipBlobSize) to the history's largest file chunk + 40 KiB, so that the
+	// history's 560-620 KiB file is packed into several zips and a fault can interrupt the pack
+	// between two zips.  MaxZip is that limit; it is set by prepare once the history is known.
+	// PackOpOnly: only the lower calls of the operation that packs the file are fault sites (the
+	// other operations are enumerated by the plain blobpacked backend).
+	MultiZip   bool
+	MaxZip     int
+	PackOpOnly bool
 }
 
 type recovery struct {
@@ -226,12 +235,21 @@ func build(def *backendDef, dir string) (*instance, error) {
 		kvc, unreg := regKV("bpmeta", mkKV("blobpacked-meta"))
 		in.closers = append(in.closers, unreg)
 		conf := jsonconfig.Obj{"smallBlobs": "/small/", "largeBlobs": "/large/", "metaIndex": map[string]any(kvc), "keepGoing": true}
-		in.S, err = create("blobpacked", ld, conf)
+		// mkBP constructs blobpacked through its public constructor; a multi-zip definition gets
+		// its lowered zip size limit on every instance (the limit is not part of the configuration)
+		mkBP := func() (blobserver.Storage, error) {
+			s, err := create("blobpacked", ld, conf)
+			if err == nil && def.MaxZip > 0 && !blobpacked.VerifSetMaxZipBlobSize(s, def.MaxZip) {
+				return nil, fmt.Errorf("VerifSetMaxZipBlobSize: not a blobpacked storage: %T", s)
+			}
+			return s, err
+		}
+		in.S, err = mkBP()
 		if err != nil {
 			return nil, err
 		}
 		in.caps = sto.Caps{Receive: true, Remove: true, SubFetch: true}
-		in.reopen = func() (blobserver.Storage, error) { return create("blobpacked", ld, conf) }
+		in.reopen = mkBP
 		rec := func(mode blobpacked.RecoveryMode) func() (blobserver.Storage, error) {
 			return func() (blobserver.Storage, error) {
 				recoveryMu.Lock()
@@ -243,7 +261,7 @@ func build(def *backendDef, dir string) (*instance, error) {
 					blobpacked.SetRecovery(blobpacked.NoRecovery)
 					log.SetOutput(logSink)
 				}()
-				s, err := create("blobpacked", ld, conf)
+				s, err := mkBP()
 				if err != nil {
 					return nil, err
 				}
@@ -520,6 +538,15 @@ func backendDefs(rng *rand.Rand, thorough bool) []*backendDef {
 	for _, k := range sql {
 		defs = append(defs, &backendDef{Name: k + "-sql", Label: k, Kind: k, KV: "sqlite", Slices: 3})
 	}
+	// blobpacked with a zip size limit that makes the history's file a multi-zip pack: a fault can
+	// then interrupt the pack after a valid first zip (the rest of the file stays loose), a state
+	// the store's recovery (re-index from the zips + integrity check) has to cope with.  The quick
+	// tier faults only the lower calls of the operation that packs.
+	mz := &backendDef{Name: "blobpacked-mz", Label: "blobpacked", Kind: "blobpacked", MultiZip: true, PackOpOnly: !thorough}
+	if thorough {
+		mz.Slices = 3
+	}
+	defs = append(defs, mz)
 	// encrypt with a history long enough to start the background compaction of its meta blobs;
 	// the quick tier faults only the receive that starts it
 	el := &backendDef{Name: "encrypt-long", Label: "encrypt", Kind: "encrypt", Long: true, FromOp: longReceives - 1, ToOp: longReceives}
